@@ -206,3 +206,4 @@ kstrobe_twin!(k_canary_must_fail_star, 34, {
   let b = ref_digest(b"label-b", &[1, 2], &[&[3]]);
   assert!(a[0] == b[0] && a[1] == b[1] && a[2] == b[2] && a[3] == b[3]);
 });
+
